@@ -108,6 +108,44 @@ def run_tool(root, outdir, workers, crash=None, trace=None, seed=7, manifest=Tru
     return pid, st
 
 
+def run_tool_fresh(root, outdir, workers, hashseed, crash=None, seed=7):
+    """The real command in a NEW interpreter with its own string-hash salt (what a re-run after a kill really is)."""
+    import subprocess
+    args = [os.path.join(root, "map"), os.path.join(root, "comp.json"), outdir, "--seed=%d" % seed,
+            "--preprocess=" + os.path.join(root, "pre.json"), "--num-workers=%d" % workers, "--manifest=" + outdir + ".manifest"]
+    env = dict(os.environ)
+    env.update(PYTHONHASHSEED=str(hashseed), PYTHONPATH=common.REPO_SRC, PYDROBERT_SPEECH_VERIF="1")
+    env.pop("PYDROBERT_SPEECH_VERIF_TRACE", None)
+    if crash:
+        env["PYDROBERT_SPEECH_VERIF_CRASH"] = crash
+    else:
+        env.pop("PYDROBERT_SPEECH_VERIF_CRASH", None)
+    code = "import sys; from pydrobert.speech import command_line as cl; sys.exit(cl.signals_to_torch_feat_dir(sys.argv[1:]) or 0)"
+    p = subprocess.run(["/venv/bin/python", "-c", code] + args, env=env, stdout=subprocess.DEVNULL, stderr=subprocess.DEVNULL)
+    return p.returncode
+
+
+def fresh_interpreters(run, root, n, ref):
+    """An uninterrupted run, and a run killed after its second manifest line and re-run, each process with a different
+    PYTHONHASHSEED: the directories must be the reference's (computed in this process, hash seed 0)."""
+    d1 = os.path.join(root, "fresh_complete")
+    rc = run_tool_fresh(root, d1, 0, hashseed=101)
+    run.evaluations += 1
+    _, files = observe(d1, n, ref)
+    if rc != 0 or files != list(range(n)):
+        run.violation({"kind": "output_depends_on_the_interpreter_process", "what": "uninterrupted run in a new interpreter (PYTHONHASHSEED=101)",
+                       "exit": rc, "files": files})
+    d2 = os.path.join(root, "fresh_resumed")
+    run_tool_fresh(root, d2, 0, hashseed=202, crash="after_manifest_print:1:hard")
+    rc = run_tool_fresh(root, d2, 2, hashseed=303)
+    run.evaluations += 1
+    man, files = observe(d2, n, ref)
+    if rc != 0 or files != list(range(n)):
+        run.violation({"kind": "resumed_directory_differs_from_uninterrupted_run", "files": files, "exit": rc, "manifest": man,
+                       "schedule": ["after_manifest_print:1:hard"], "workers": "0 then 2",
+                       "what": "each run in a new interpreter with its own PYTHONHASHSEED (202, 303)"})
+
+
 def load_tensor(path):
     import torch
     try:
@@ -314,6 +352,7 @@ def run(tier, seed):
                 if fl != list(range(n)):
                     run.violation({"kind": "resumed_directory_differs_from_uninterrupted_run", "seed": sd, "files": fl,
                                    "schedule": ["after_manifest_print:1:hard"], "workers": "0 then 2"})
+        fresh_interpreters(run, root, n, ref)
         kinds = [("before_save", "hard"), ("before_save", "mid"), ("before_save", "soft"), ("after_save", "hard"), ("after_save", "soft"),
                  ("after_manifest_print", "hard"), ("after_manifest_print", "soft")]
         schedules = []
